@@ -82,6 +82,7 @@ pub fn headers(conditional: bool) -> Vec<(&'static str, &'static str)> {
         ("Pragma", "no-cache"), ("Priority", "u=0"), ("Early-Data", "1"), ("Accept-Datetime", "Thu, 31 May 2007 20:35:00 GMT"), ("Service-Worker", "script"), ("Last-Event-ID", "7"),
     ]);
     v.extend_from_slice(SWITCH_HEADERS);
+    v.extend_from_slice(FETCH_BUNDLES);
     // a few half-written values for the headers servers log or trust
     v.extend_from_slice(&[("X-Forwarded-For", "[2001:db8::7"), ("X-Forwarded-For", "203.0.113.7, [::1"), ("Forwarded", "for=\"[2001:db8::7"), ("X-Real-IP", "[::1"), ("Host", "[::1"), ("Referer", "http://[::1"), ("Origin", "http://[::1"), ("User-Agent", ""), ("Cookie", ";"), ("Authorization", "Basic"), ("Accept-Language", "en;q"), ("Accept", "text/html;q")]);
     if !conditional {
